@@ -77,7 +77,7 @@ theorem handle_frame (s : State) (m : Msg) :
     (handle s m).retP = s.retP ∧ (handle s m).retE = s.retE ∧ (handle s m).callerCtx = s.callerCtx ∧
     (((handle s m).cp = s.cp ∧ (handle s m).ce = s.ce) ∨
       (s.reg = .none ∧ (handle s m).cp = .run 0 true ∧ (handle s m).ce = .run [] true)) := by
-  cases m <;> simp only [handle]
+  cases m <;> simp only [handle, cancelLive, hookCancel, ingest, procTerminations]
   · split
     · simp
     · rename_i h; simp at h; simp [h]
@@ -282,7 +282,7 @@ theorem hsum_offline {s s' : State} (h : HSum s s') : HSum s { s' with online :=
 theorem handle_sum (s : State) (m : Msg) (hm : s.mphase = .idle) : HSum s (handle s m) := by
   cases m
   case responses p st it hk =>
-    simp only [handle]
+    simp only [handle, cancelLive, hookCancel, ingest, procTerminations]
     by_cases hl : s.reg = .live
     · (repeat' split) <;> first
         | exact hsum_offline (cancelOnError_sum s _ _ _ _ _ hm hl)
@@ -292,7 +292,7 @@ theorem handle_sum (s : State) (m : Msg) (hm : s.mphase = .idle) : HSum s (handl
         | (exfalso; simp_all; done)
         | (constructor <;> simp_all)
   case cancel api =>
-    simp only [handle]
+    simp only [handle, cancelLive, hookCancel, ingest, procTerminations]
     by_cases hl : s.reg = .live
     · (repeat' split) <;> first
         | exact cancelOnError_sum s _ _ _ _ _ hm hl
@@ -302,7 +302,7 @@ theorem handle_sum (s : State) (m : Msg) (hm : s.mphase = .idle) : HSum s (handl
         | (exfalso; simp_all; done)
         | (constructor <;> simp_all)
   all_goals
-    simp only [handle, terminate, finishTerminate, releaseKeepsPaused]
+    simp only [handle, cancelLive, hookCancel, ingest, procTerminations, terminate, finishTerminate, releaseKeepsPaused]
     (repeat' split) <;> (constructor <;> simp_all)
 
 
@@ -391,7 +391,7 @@ theorem cancelOnError_out (s : State) (e : Option Err) :
 theorem handle_out (s : State) (m : Msg) :
     (handle s m).peer = s.peer ∧
     ((handle s m).outbox = s.outbox ∨ (handle s m).outbox = s.outbox ++ [{ kind := .cancel, peer := s.peer }]) := by
-  cases m <;> simp only [handle]
+  cases m <;> simp only [handle, cancelLive, hookCancel, ingest, procTerminations]
   · split <;> simp
   · (repeat' split) <;> simp [cancelOnError_out]
   · (repeat' split) <;> simp [cancelOnError_out]
